@@ -397,6 +397,19 @@ def verify_sig(world, pool, tier, rng, provider="openssl"):
                 emit(msg + b"." + sig[n:], "sig-trunc-start", False)
                 emit(msg + b"." + sig + b"A" * n, "sig-ext-end", False)
                 emit(msg + b"." + b"A" * n + sig, "sig-ext-start", False)
+            if key.kind in ("rsa", "rsapss") and alg in ("RS256", "PS256", "PS512"):
+                # an RSA signature is as long as the modulus: one whose first octet happens to be zero (1 in 256), with that octet
+                # dropped, denotes the same integer but is not the algorithm's signature (RFC 8017 8.1.2 / 8.2.2)
+                for i_ in range(4000):
+                    m_ = h + b"." + seg({"sub": "x", "n": i_})
+                    s_ = pool.oracle.sign(pool.okid[name], alg, m_) if name in pool.okid else None
+                    if s_ is None:
+                        break
+                    if s_[0] == 0:
+                        emit(m_ + b"." + K.b64u(s_).encode(), "valid (signature starts with a zero octet)", True, must=True)
+                        emit(m_ + b"." + K.b64u(s_[1:]).encode(), "sig-leading-zero-octet-dropped", False)
+                        emit(m_ + b"." + K.b64u(b"\x00" + s_).encode(), "sig-zero-prefix", False)
+                        break
             if key.kind == "oct":
                 # a MAC made with only the leading part of a long key (one hash block, half of it) is a MAC under another key
                 for cut in (16, 32, 48, 64, 128, len(key.k) - 1):
